@@ -259,6 +259,9 @@ func expected(s Set, f facts, m Member) (classes []string, locked, ok bool) {
 	root := uni.Addr(fam.Cnr, fam.Root)
 	switch m.Role {
 	case rTomb:
+		if expiredAt(m.Spec.Exp, s.Eq) {
+			return []string{stExpired}, false, true
+		}
 		return []string{stAvailable}, false, true
 	case rLock:
 		if expiredAt(m.Spec.Exp, s.Eq) {
@@ -307,6 +310,13 @@ func labelsOf(s Set) []string {
 	f := s.facts()
 	if len(f.famT) > 0 {
 		l = append(l, "has-tombstone")
+	}
+	for _, m := range s.Members {
+		if m.Role == rTomb && s.Er > 0 && expiredAt(m.Spec.Exp, s.Er) {
+			l = append(l, "tombstone-expired-at-rebuild-epoch")
+		} else if m.Role == rTomb && expiredAt(m.Spec.Exp, s.Eq) {
+			l = append(l, "tombstone-expired-at-read-epoch-only")
+		}
 	}
 	if len(f.famL) > 0 {
 		l = append(l, "has-lock")
@@ -405,6 +415,10 @@ func checkSet(t *rapid.T, rec *ev.Recorder, s Set, db, db2 *meta.DB, ep *stor.Ep
 		if !slices.Contains(classes, got.Class) {
 			t.Fatalf("%s (%s %s): status after rebuild is %q, the stored objects imply %q\nall statuses:%s\n%s",
 				fmtAddr(m.addr()), m.Role, m.Spec.String(), got, classes, fmtVec(addrs, base), s.Short())
+		}
+		if m.Role != rTomb && m.Role != rLock && (classes[0] == stRemoved || classes[0] == stBoth) && !got.Garbage {
+			t.Fatalf("%s (%s): removed by a stored tombstone but not in the garbage list after rebuild: GC cannot reclaim it\nall statuses:%s\n%s",
+				fmtAddr(m.addr()), m.Role, fmtVec(addrs, base), s.Short())
 		}
 		if len(classes) == 1 && classes[0] == stAvailable && got.Locked != locked {
 			t.Fatalf("%s (%s): IsLocked=%v after rebuild, the stored objects imply %v\nall statuses:%s\n%s",
